@@ -92,14 +92,48 @@ func runC20(e *Engine, r *Report) {
 		got := keysOf(mapsConsulted(e, cm))
 		r.check(got == "Addresses,NonVotings,Removed,Witnesses", "TBL-import-validators", "checkMembers consults all four membership maps", e.pos(cm.Pos()),
 			"address/kind change and removed-id checks cover every member kind", "checkMembers consults only {"+got+"}")
-		// every lookup is keyed by the listed replica id and each ok/addr mismatch leads to an error return
-		nErr := 0
+		// a listed id found in NonVotings, Witnesses or Removed is refused
+		// whatever its address; one found in Addresses only with the same
+		// address: from each lookup no path reaches the accepting return
+		// (nil) except through the "not found" edge (or, for Addresses, the
+		// "same address" edge).
+		nl := 0
 		forEachInstr(cm, func(in ssa.Instruction) {
-			if ret, ok := in.(*ssa.Return); ok && !isNilConst(retOperand(ret, 0)) {
-				nErr++
+			lk, ok := in.(*ssa.Lookup)
+			if !ok || !lk.CommaOk {
+				return
 			}
+			f, _, ok := loadedField(lk.X)
+			if !ok {
+				return
+			}
+			nl++
+			var okV VM = func(v ssa.Value) bool {
+				ex, isE := v.(*ssa.Extract)
+				return isE && ex.Tuple == ssa.Value(lk) && ex.Index == 1
+			}
+			var valV VM = func(v ssa.Value) bool {
+				ex, isE := v.(*ssa.Extract)
+				return isE && ex.Tuple == ssa.Value(lk) && ex.Index == 0
+			}
+			exempt := reqBool("not found", okV, false)
+			if f.Name() == "Addresses" {
+				exempt = reqAny("not found, or same address", reqBool("", okV, false), reqCmp("", "==", valV, anyV()))
+			}
+			res := e.pathUnless(cm, lk, func(x ssa.Instruction) bool { return e.isSuccessReturn(x) }, func(x ssa.Instruction) bool {
+				// the next evaluation of the same lookup starts a new obligation
+				return x == ssa.Instruction(lk)
+			}, exempt)
+			var w []string
+			for _, x := range res.Witness {
+				w = append(w, e.ipos(x))
+			}
+			what := "a listed id that is a " + f.Name() + " member of the exported membership"
+			r.check(!res.Found, "TBL-import-validators", "checkMembers refuses "+what+" (unless absent"+map[bool]string{true: " or unchanged", false: ""}[f.Name() == "Addresses"]+")", e.ipos(lk),
+				"the member list cannot change the kind/address of an existing member or re-add a removed id",
+				"checkMembers can accept "+what+": the import would turn it into a regular member / change its address / re-admit it", w...)
 		})
-		r.check(nErr >= 6, "TBL-import-validators", "checkMembers has its six refusal exits", e.pos(cm.Pos()), "address change x3, kind change x2, removed id", "checkMembers lost a refusal exit")
+		r.check(nl >= 4, "TBL-import-validators", "checkMembers looks every listed id up in the four maps", e.pos(cm.Pos()), "four lookups", "checkMembers performs fewer than four membership lookups")
 	}
 	if cs := e.Func("tools.checkImportSettings"); cs != nil {
 		ra := e.Field("config", "NodeHostConfig", "RaftAddress")
@@ -243,4 +277,5 @@ func runC20(e *Engine, r *Report) {
 		}
 		r.check(okOrder, "MPT-import-batch", "tan import: bootstrap -> install -> sync", e.pos(ti.Pos()), "ordered and synced", "the Tan import no longer writes bootstrap, installs the snapshot and syncs on every success path")
 	}
+	ruleShrunkPredicate(e, r)
 }
